@@ -221,7 +221,7 @@ class State:
         for f, (ct, cf, deps) in list(self.flags.items()):
             if t in deps:
                 sh = lambda cons: [(a, b, c + d if a == t and b != t else c - d if b == t and a != t else c) for (a, b, c) in cons]
-                self.flags[f] = (sh(ct), sh(cf), deps)
+                self.flags[f] = (tuple(sh(ct)), tuple(sh(cf)), deps)
 
     # ---- linear-form queries
     def lin_le0(self, l):
@@ -320,9 +320,9 @@ def join(a, b):
             if (not truth) and S.le(ZERO, f, -1):
                 return True
             return S.le(c[0], c[1], c[2])
-        ct = [c for c in dict.fromkeys((fa[0] if fa else ()) + (fb[0] if fb else ()))
+        ct = [c for c in dict.fromkeys(tuple(fa[0] if fa else ()) + tuple(fb[0] if fb else ()))
               if holds(a, fa, True, c) and holds(b, fb, True, c)]
-        cf = [c for c in dict.fromkeys((fa[1] if fa else ()) + (fb[1] if fb else ()))
+        cf = [c for c in dict.fromkeys(tuple(fa[1] if fa else ()) + tuple(fb[1] if fb else ()))
               if holds(a, fa, False, c) and holds(b, fb, False, c)]
         if ct or cf:
             deps = frozenset(x for (p, q, _) in ct + cf for x in (p, q) if x != ZERO)
